@@ -1,1 +1,4 @@
 pub mod static_checks;
+pub mod c18;
+pub mod c17;
+pub mod c17_more;
